@@ -5,7 +5,12 @@ from .. import gen_models as gm
 from .. import pipeline as pl
 
 THEOREMS = ["C08.dispatch_total", "C08.shipped_load_ok", "C08.shipped_star_only", "C08.shipped_configs_accepted_somewhere",
-            "C08.performer_total", "C08.modify_total", "C08.genInsts_total", "C08.modify_total_wf"]
+            "C08.performer_total", "C08.modify_total", "C08.genInsts_total", "C08.modify_total_wf",
+            # C08c: inventory of every raise site of the materialisation stage and totality up to the numeric sites
+            "C08.generate_error_sites", "C08.generate_structural_excluded", "C08.generate_total_partial", "C08.numeric_site_fails",
+            "C08.generate_total_of_numericOK", "C08.quantize_total_partial", "C08.quantize_total_of_numericOK", "C08.stats_of_calibration",
+            "C08.resolved_registered", "C08.shipped_resolution", "C08.shipped_coverage", "C08.registry_kinds", "C08.Inst.hyp",
+            "C08.Inst.unshared", "C08.Inst.numericOK", "C08.Inst.quantize_runs", "C08.Inst.big_numeric_site", "C08.Inst.st_shipped"]
 
 
 def gen(rng, i):
@@ -24,7 +29,18 @@ def run(ctx):
     ctx.explanation = ("Proved: the materialisation dispatch of the model covers every registered (algorithm, op, function) of the live registry, "
                        "shipped recipes load, consist of '*' rules only and carry configs the policy accepts for at least one op. The totality "
                        "theorem proper (no raise site reachable) is not proved; rejection-freedom is established by execution on generated models.")
-    common.proof_side(ctx, THEOREMS, modules=["QProps.C08", "QProps.C08b"])
+    ctx.explanation = ("PARTIAL at the numeric sites only. Proved (QProps/C08c): every way Mat.generate can fail is one of an explicit inventory of "
+                       "sites (generate_error_sites); under Hyp (normal form, float model, unique names, statistics given and complete -- which "
+                       "calibrate() delivers: stats_of_calibration --, no skip_checks rule, operator shapes as the converter emits them) and "
+                       "Unshared (no tied constants, C08's reading of its quantifier) every STRUCTURAL site is impossible "
+                       "(generate_structural_excluded), so generate / quantizePure return, with a well-formed model, or stop at a NUMERIC site "
+                       "-- zpScale / uniformQuantize / quantizeBias / float16 cast overflowing on the actual data -- and such a site is a real "
+                       "failure (numeric_site_fails); with the graph-stage totality of C08b this gives quantize_total_partial. Each hypothesis "
+                       "is shown necessary by a closed run; for every shipped recipe, resolution selects no-quantize or a registered, modelled "
+                       "function with a legal mode for every operator name (shipped_resolution, shipped_coverage, kernel evaluation over the "
+                       "regenerated tables). Not proved: that the numeric primitives succeed on finite, ordered data (NumericOK stays a "
+                       "hypothesis); covered by execution over all shipped recipes x generated models.")
+    common.proof_side(ctx, THEOREMS, modules=["QProps.C08", "QProps.C08b", "QProps.C08c"])
     drv = common.Driver()
 
     def per_case(case, res):
